@@ -66,6 +66,12 @@ def cases(ctx):
         n = rng.choice([1, 2, 3, 5, 10, 30, 80] + ([150, 300] if j % 7 == 0 else []) + ([600] if not quick and j % 40 == 0 else []))
         yield {'kind': 'roundtrip', 'cfg': rng.choice(cids), 'enc': rng.choice(encs), 'fmt': rng.choice(['vbs', '1014']),
                'n': n, 'salt': rng.randint(0, 10 ** 9), 'big': rng.random() < 0.4, 'api': rng.choice(['write', 'write_many', 'with'])}
+    # a long fixed element left blank: in EBCDIC (and with '@' in Latin-1) a whole 1014 block of the file is then x'40',
+    # byte for byte what the blocker uses as fill - it is data all the same
+    for k, (enc_b, ch) in enumerate((('cp500', ' '), ('cp037', ' '), ('latin_1', '@'), ('cp500', ' '))):
+        if ctx.shard == 7 + k:
+            yield {'kind': 'roundtrip', 'cfg': ['special', 0], 'enc': enc_b, 'fmt': '1014', 'n': 14, 'salt': 4242 + k + ctx.seed,
+                   'big': False, 'api': ('write', 'with', 'write_many', 'write')[k], 'blank': ch}
     # files of more than 1 MiB and more than 2 MiB of blocks (buffering thresholds in readers/writers)
     if ctx.shard in (3, 4):
         yield {'kind': 'roundtrip', 'cfg': 'packaged', 'enc': 'cp500' if ctx.shard == 3 else 'latin_1', 'fmt': '1014',
@@ -113,6 +119,22 @@ def judge_roundtrip(ctx, case):
             if len(ref.encode(x, cfg, enc)) <= 6000:
                 msgs.append(x)
         ctx.count('round trips of files over 1 MiB')
+    elif case.get('blank'):
+        wide = [b for b in gen.data_bits(cfg) if cfg[str(b)]['field_type'] == 'FIXED' and cfg[str(b)]['field_length'] > 1100
+                and gen.is_text(cfg[str(b)])]
+        msgs = []
+        for attempt in range(60):
+            msgs = []
+            for k in range(case['n']):
+                x = gen.gen_message(rng, cfg, enc, pds_mode='none')
+                for b in wide:
+                    x['DE%d' % b] = case['blank'] * cfg[str(b)]['field_length']
+                if len(ref.encode(x, cfg, enc)) <= 6000:
+                    msgs.append(x)
+            image = refb.block(refb.vbs([ref.encode(x, cfg, enc) for x in msgs]))
+            if any(image[o:o + 1014] == b'\x40' * 1014 for o in range(0, len(image) - 1014, 1014)):
+                ctx.count('files with a whole block of fill bytes inside the data')
+                break
     else:
         msgs = gen_list(rng, cfg, enc, case['n'], case['big'])
     ctx.case_done(case, nontrivial=bool(msgs))
@@ -572,6 +594,8 @@ def require(m):
         reasons.append('threads did not actually overlap (fewer than 50 alternations observed)')
     if not c.get('cold-start trials (fresh interpreter, threads released before first use)'):
         reasons.append('no cold-start trial ran')
+    if not c.get('files with a whole block of fill bytes inside the data') and not m['violations']:
+        reasons.append('no file with a whole block of fill bytes inside the data')
     if not c.get('composed reader runs'):
         reasons.append('composed readers never run')
     if not c.get('round trips of files over 1 MiB'):
